@@ -1127,7 +1127,10 @@ func (ctx Ctx) coqRecurFunc(fullFuncName string, e *ast.Ident) coq.Expr {
 		return nil
 	}
 
-	if fun.Scope().Contains(e.Pos()) {
+	// a method of an instantiated generic type has no scope of its own; the
+	// body (and any recursive call in it) belongs to the generic method
+	scope := fun.Origin().Scope()
+	if scope != nil && scope.Contains(e.Pos()) {
 		return coq.GallinaString(fullFuncName)
 	} else {
 		return coq.GallinaIdent(fullFuncName)
